@@ -232,7 +232,7 @@ PROPS["C04"] = {
 PROPS["C09"] = {
     "rules": [rules_gr.rule_il_symmetry, rules_gr.rule_il_range, _layouts("image-dims")],
     "level": "other",
-    "explanation": "Decides structural necessary conditions of 'images round-trip in every interlace': (ILSYM) GRIil_convert sets up the stride tables of its input and output buffer in two switches over the interlace code; converting X->Y and Y->X are inverse permutations only if both describe each interlace identically, so every arm of the `inil` switch must equal the `outil` arm for the same code after renaming in_*/inbuf to out_*/outbuf, all three codes must have an arm in both, and any other code takes the failing default. (ILRANGE) the two setters of the requested interlace (GRreqimageil, GRreqlutil) store the code only on paths where it is confined to PIXEL..COMPONENT. (F1) the image-dimension record (DFTAG_ID/LD) is written and read as the frozen format table says. Not decided (value-level): region/stride addressing in GRwriteimage/GRreadimage, first-write fill, palette entry values, behaviour under compression/chunking (see C04/C05 for their structural clauses).",
+    "explanation": "Decides structural necessary conditions of 'images round-trip in every interlace': (ILSYM) GRIil_convert sets up the stride tables of its input and output buffer in two switches over the interlace code; converting X->Y and Y->X are inverse permutations only if both describe each interlace identically, so every arm of the `inil` switch must equal the `outil` arm for the same code after renaming in_*/inbuf to out_*/outbuf, all three codes must have an arm in both, and any other code takes the failing default; every other condition of GRIil_convert tests `inil` and `outil` against the same codes (the end-of-line adjustment is applied for both directions). (ILRANGE) the two setters of the requested interlace (GRreqimageil, GRreqlutil) store the code only on paths where it is confined to PIXEL..COMPONENT. (F1) the image-dimension record (DFTAG_ID/LD) is written and read as the frozen format table says. Not decided (value-level): region/stride addressing in GRwriteimage/GRreadimage, first-write fill, palette entry values, behaviour under compression/chunking (see C04/C05 for their structural clauses).",
     "rule_text": "instances = interlace codes x the two switches of GRIil_convert, the two interlace setters, rows of the image-dims layout",
     "trusted": [CLANG, CDB, "the frozen image-dims layout (DESIGN Appendix A)"],
     "assumptions": ["GRIil_convert is the only interlace permutation used by GRreadimage/GRwriteimage/GRreadlut (its callers are not enumerated)"],
@@ -266,8 +266,8 @@ PROPS["C16"]["explanation"] = PROPS["C16"]["explanation"].replace(" Not decided:
 
 PROPS["C08"]["rules"] = PROPS["C08"]["rules"] + [rules_ref.rule_shared_access_monotone]
 PROPS["C08"]["explanation"] += " (MONO) re-attaching a Vgroup that is already attached (nattach > 0) combines the old access mode with the requested one and never overwrites it, so an earlier write handle is not silently downgraded."
-PROPS["C14"]["rules"] = PROPS["C14"]["rules"] + [rules_ref.rule_bitflush_mode]
-PROPS["C14"]["explanation"] += " (BITFLUSH) the bit-I/O layer writes its buffer back (HIbitflush) only on paths where the bitfile is in write *mode*; being opened with write *access* is not enough, a buffer filled by reading must never be written."
+PROPS["C14"]["rules"] = PROPS["C14"]["rules"] + [rules_ref.rule_bitflush_mode, rules_ref.rule_access_from_mode]
+PROPS["C14"]["explanation"] += " (ACCMODE) each special-element start-access routine derives access_rec->access from the requested mode, and a chunk handed back to the cache as DIRTY counts as a write promise that needs a write-permission proof (F5B). (BITFLUSH) the bit-I/O layer writes its buffer back (HIbitflush) only on paths where the bitfile is in write *mode*; being opened with write *access* is not enough, a buffer filled by reading must never be written."
 PROPS["C05"]["rules"] = PROPS["C05"]["rules"] + [rules_ref.rule_bitflush_mode]
 
 PROPS["C19"]["rules"] = PROPS["C19"]["rules"] + [rules_tools.rule_index_count_pairing]
